@@ -97,11 +97,17 @@ class Highlighter(object):
 
             if token_type == tokenize.ENDMARKER:
                 # End of source
+                if current_type is None:
+                    current_type = self.TOKEN_DEFAULT
+
                 line += "<{}>{}</>".format(self._theme[current_type], buffer)
                 lines.append(line)
                 break
 
             if lineno > current_line:
+                if current_type is None:
+                    current_type = self.TOKEN_DEFAULT
+
                 diff = lineno - current_line
                 if diff > 1:
                     lines += [""] * (diff - 1)
